@@ -38,7 +38,7 @@ TEXT = {
                  "followed by end or blank: other case, longer words, mid-sentence, block comments are inert), list_names_valid / constructor_names / ignore_codes_upper "
                  "(captured arguments are well-formed identifiers / paths / upper-cased codes, non-empty where required), prefilter_complete (the pre-filter only drops "
                  "lines the grammar rejects). The regexes are tied to the recognisers by comparing all seven verdicts on every token sequence up to a bound and on seeded byte mutations, "
-                 "through the real ReadAllAnnotations / ReadIgnoreAnnotations. Attachment sites are covered by the whole-program suites (C01-C04, C09). List arguments in both directions: list_complete (documented shape => recognised with exactly its items) and list_sound (recognised => the line decomposes in exactly that way).",
+                 "through the real ReadAllAnnotations / ReadIgnoreAnnotations. Attachment sites are covered by the whole-program suites (C01-C04, C09). List arguments in both directions: list_complete (documented shape => recognised with exactly its items) and list_sound (recognised => the line decomposes in exactly that way). Attachment inside `type ( ... )` groups: spec_doc_wins / group_doc_fallback (a spec's own doc comment speaks for it alone, the group's only for undocumented specs) and type_decl_by_spec / documented_spec_local (each spec contributes independently of its siblings).",
         "note": TB + "Modelled rather than verified: the regexes (closed-form recognisers + bounded-exhaustive differential tie); maximal-munch completeness of list arguments is tied by correspondence, not proved.",
         "technique": "Lean 4 proofs (recogniser = relational grammar for bare keywords; soundness/exactness for argument keywords) + bounded-exhaustive and fuzz differential correspondence against the regexes",
     },
